@@ -46,6 +46,34 @@ CHECKS = [
         "text": "Generated definitions over all four control x calibration combinations, both CSE settings and enabled/disabled filtering are run through both back-ends on the same named inputs; prediction and update results, stored innovations and accept/reject decisions must agree with each other and with the reference EKF. Exploration; one compile per program.",
         "note": "Decisions compared away from the threshold only; stand-in instead of Eigen; identifier-safe names; <=4 states.",
     },
+    {
+        "property_id": "C08",
+        "cpp": True,
+        "technique": "metamorphic property-based testing (Hypothesis): sharing-pool models with CSE on vs off in both back-ends, plus a single-assignment validity predicate over the generated C++ text and the Python prefix callables",
+        "text": "Generated models with forced nested shared sub-expressions: Python model/Jacobians/prediction/update with CSE on vs off must agree and match the reference; the same definition generated as C++ with CSE on and off, both compiled and run, must agree entry for entry; every temporary in the generated C++ is declared once, before use, from inputs and earlier temporaries only (textual SSA predicate), and the Python prefix callables take exactly arglist + earlier temporaries. Exploration.",
+        "note": "SSA predicate is a regex over FormaK's generated source layout; C++ via the stand-in; <=4 states.",
+    },
+    {
+        "property_id": "C10",
+        "cpp": True,
+        "technique": "property-based testing (Hypothesis) with a validity predicate over recorded step schedules: real Python runtime and real ManagedFilter.h under recording filters; near-integer, backwards and zero moves generated by construction",
+        "text": "Hundreds of thousands of generated moves (start, target = start + q*max_dt with adversarial q, 12 max_dt values, tick sequences with readings) through both runtimes; every recorded prediction step must point in the direction of travel, be no longer than max_dt, and the steps must sum to the time difference within 1e-9; no step at equal times. Many schedules are valid, so the oracle is a predicate, not one expected schedule. Exploration.",
+        "note": "C++ max_dt_sec is compile-time: 12 values per run (4 fixed + 8 derived from the seed); recording Impl mirrors exactly the generated filter's call signatures; |t| <= 1e4.",
+    },
+    {
+        "property_id": "C11",
+        "cpp": True,
+        "technique": "model-based property-based testing (Hypothesis): generated tick histories against a ten-line reference fold, token-chained recording filters in both runtimes, read-only-tick insertion metamorphic relation, value-level replay on real generated EKFs, fixed negative-compile programs",
+        "text": "Generated histories with unordered reading timestamps through the real Python and C++ runtimes; the recorded calls (with data-flow tokens) must be exactly the reference fold, both runtimes must issue the same collapsed trace, inserting read-only ticks must not change later results, a real nonlinear EKF ticked through the runtime must equal the by-hand fold bit-for-bit using the schedule the runtime reported, and control-required misuse must be refused (TypeError / compile error). Exploration.",
+        "note": "Prediction schedules compared up to the C10 predicate; recording Impl stands in for generated C++ filters at trace level (C12 covers generated ones).",
+    },
+    {
+        "property_id": "C12",
+        "cpp": True,
+        "technique": "compile-and-run differential property-based testing: all 16 control x calibration x #sensors configurations enumerated, generated filters per configuration driven through the real ManagedFilter.h and replayed by hand in the same binary",
+        "text": "For every configuration (exhaustive) and generated models/sensors/histories, the generated filter must satisfy ManagedFilter<>::compatible, all tick overloads and wrap() must compile, and each tick's result must be bit-identical to calling process_model / reading.sensor_model by hand in the prescribed order with the runtime's own step schedule. Exploration over programs; configurations exhaustive.",
+        "note": "Compiled with g++ 12 against the stand-in; by-hand replay takes the runtime's reported step schedule (its validity is C10).",
+    },
 ]
 
 _PENDING = "check not built yet in this revision of /verif (planned in DESIGN.md section 6)"
